@@ -22,8 +22,10 @@ Variable V : variant.
 Variable g : graph.
 Variable root : nat.
 Hypothesis W : wf g root.
-Variables (fuel : nat) (lr0 : amap) (a : analysis) (es : list entry) (st : res unit).
-Hypothesis GP : generate_paths V fuel g root lr0 aempty = Ok (a, (es, st)).
+Variables (fuel : nat) (lr0 lv0 : amap) (a : analysis) (es : list entry) (st : res unit).
+(* either the code resets the annotations itself (after the fix), or the graph is fresh *)
+Hypothesis Fresh : fix_reset V = true \/ forall s i, s < length g -> lv0 s i = None.
+Hypothesis GP : generate_paths V fuel g root lr0 lv0 = Ok (a, (es, st)).
 
 Lemma gp_inv :
   sound g (a_lv a) /\ complete g (a_lv a) /\
@@ -31,9 +33,9 @@ Lemma gp_inv :
   (forall x, x < length g -> is_leaf g x = true -> In x (a_valid a ++ a_invalid a)).
 Proof.
   unfold generate_paths in GP.
-  destruct (analyse V fuel g root lr0 aempty) as [a'| | |] eqn:A; simpl in GP; try discriminate.
+  destruct (analyse V fuel g root lr0 lv0) as [a'| | |] eqn:A; simpl in GP; try discriminate.
   inversion GP; subst a'. clear GP.
-  destruct (analyse_spec V g root W fuel lr0 a A) as (S & C & T & T').
+  destruct (analyse_spec V g root W fuel lr0 lv0 a Fresh A) as (S & C & T & T').
   split; auto. split; auto. split; auto.
   eapply gp_loop_spec; eauto.
 Qed.
@@ -99,12 +101,12 @@ Theorem paths_count : exists its, items fuel g root = Ok its /\ NoDup its /\
 Proof.
   destruct gp_inv as (_ & _ & (P1 & _ & _ & P4) & _).
   unfold generate_paths in GP.
-  destruct (analyse V fuel g root lr0 aempty) as [a'| | |] eqn:A; simpl in GP; try discriminate.
+  destruct (analyse V fuel g root lr0 lv0) as [a'| | |] eqn:A; simpl in GP; try discriminate.
   inversion GP; subst a'. clear GP.
   unfold analyse in A.
   destruct (items fuel g root) as [its| | |] eqn:I; simpl in A; try discriminate.
-  destruct (af V fuel g lr0 root 0) as [lr| | |]; simpl in A; try discriminate.
-  destruct (foldM _ _ aempty) as [lv| | |]; simpl in A; try discriminate.
+  destruct (af V fuel g _ root 0) as [lr| | |]; simpl in A; try discriminate.
+  destruct (foldM _ _ _) as [lv| | |]; simpl in A; try discriminate.
   inversion A; subst a; simpl in *. clear A.
   exists its. split; auto. split.
   - unfold items in I. eapply dfs_nodup; eauto. constructor.
